@@ -311,6 +311,44 @@ static Outcome run_reader(const Case &c) {
   if (turns >= 40000) x.fail("livelock", "reader script did not finish within 40000 turns");
   if (r.timer) shim_timer_cancel(r.timer);
   if (r.waiting && r.R) shim_nr_cancel(r.R);
+  // The peer half-closed (end-of-stream without POLLHUP: it sent what it had to say and keeps reading).  The connection is still
+  // good in the other direction: a writer on the SAME descriptor must deliver everything, whether the reader still exists or not.
+  {
+    Sock *s = K().get(r.fd);
+    bool half = !x.failed && r.ended && x.cls.count("eof") && s && !s->in.empty() && s->in.front().t == IN_EOF && !s->in.front().hup;
+    if (half) {
+      uint64_t h = pbt::fnv(to_text(c));
+      bool free_reader_first = (h >> 9) & 1;
+      if (free_reader_first && r.R) {
+        shim_nr_free(r.R);
+        r.R = nullptr;
+      }
+      static int dup_fail;
+      dup_fail = 0;
+      void *W = shim_nw_init(r.fd, [](void *) -> int { dup_fail++; return 0; }, nullptr);
+      if (!W)
+        x.fail("init-failed", "netbuf_write_init on the reader's descriptor returned NULL");
+      else {
+        std::string d = prbytes(91, 1 + (size_t)((h >> 11) % 9000));
+        size_t before = s->sent.size();
+        int rc = shim_nw_write(W, (const uint8_t *)d.data(), d.size());
+        if (rc != 0) x.fail("write-refused", "netbuf_write_write after the reader's end-of-stream returned " + std::to_string(rc));
+        for (int t = 0; t < 200 && !x.failed && s->sent.size() - before < d.size() && dup_fail == 0; t++) {
+          K().stuck = false;
+          if (shim_events_run() != 0) x.fail("events-run-error", "events_run failed while writing after the peer's half-close");
+          if (K().stuck) break;
+        }
+        if (!x.failed && (dup_fail || s->sent.size() - before != d.size() || memcmp(s->sent.data() + before, d.data(), d.size()) != 0)) {
+          char m[300];
+          snprintf(m, sizeof m, "after the peer half-closed (reader saw end-of-stream) a writer on the same descriptor delivered %zu of %zu bytes, failure callbacks %d, shutdown() calls by the library %d",
+                   s->sent.size() - before, d.size(), dup_fail, s->shutdowns);
+          x.fail("write-after-half-close", m);
+        }
+        shim_nw_free(W);
+        x.cls.insert(free_reader_first ? "write-after-peer-half-close(reader freed)" : "write-after-peer-half-close(reader alive)");
+      }
+    }
+  }
   if (r.R) shim_nr_free(r.R);
   int ncls = 0;
   for (auto &s : x.cls) {
